@@ -585,14 +585,14 @@ def run_blind(case):
     if gx != want_x:
         parsed = R.parse_xkey(gx) if isinstance(gx, str) else None
         if parsed and parsed[1].same(rfull.neuter()):
-            res.violation(f"C08/blind/version-changed/{case['version']}", vc, gx, want_x, "blinded xpub carries the right key under different version bytes")
+            res.violation("C08/blind/version-changed", vc, gx, want_x, "blinded xpub carries the right key under different version bytes")
         else:
             res.violation(f"C08/blind/wrong-key/depth{len(start)}+{len(secret)}", vc, gx, want_x, "blinded xpub is not the key found at the combined path from the root")
     else:
         res.ok("blinded==ref-at-combined-path", key, sample={"start": sp, "secret": xp, "xpub": want_x[:20] + "..."} if len(secret) == 2 else None)
     gp = got.get("blinded_full_path")
     if not isinstance(gp, str) or R.parse_path(gp) != start + secret:
-        res.violation(f"C08/blind/wrong-full-path/{st}", vc, gp, R.format_path(start + secret), "blinded_full_path is not the concatenation of the two paths")
+        res.violation("C08/blind/wrong-full-path" + ("" if isinstance(gp, str) and R.parse_path(gp) is not None else "/unparseable"), vc, gp, R.format_path(start + secret), "blinded_full_path is not the concatenation of the two paths")
     else:
         res.ok("full-path==concat")
     return res
